@@ -27,6 +27,7 @@ import (
 	"path/filepath"
 	"sort"
 	"strconv"
+	"strings"
 	"sync"
 	"sync/atomic"
 	"time"
@@ -273,6 +274,11 @@ func initTSTable(fileSystem fs.FileSystem, rootPath string, p common.Position,
 			continue
 		}
 		if filepath.Ext(ee[i].Name()) != snapshotSuffix {
+			// A crash between the fsync and the rename of an atomic snapshot write leaves
+			// "<epoch>.snp.tmp" behind; snapshot names are never reused, so nothing else removes it.
+			if strings.HasSuffix(ee[i].Name(), snapshotSuffix+".tmp") {
+				needToDelete = append(needToDelete, ee[i].Name())
+			}
 			continue
 		}
 		snapshot, err := parseSnapshot(ee[i].Name())
